@@ -77,8 +77,36 @@ impl SendWindow {
         self.sent_at = Instant::MAX;
     }
 
+    /// Check the ACK seq num in the incoming packet (if any): it must acknowledge one of the
+    /// `window_size - level` segments which were sent and are not acknowledged yet.
+    ///
+    /// An ACK for a sequence number that was never sent (or that was already acknowledged)
+    /// is a protocol violation by the peer.
+    fn check_incoming(&self, hdr: &BtpHdr) -> Result<(), Error> {
+        let Some(ack_seq_num) = hdr.get_ack() else {
+            return Ok(());
+        };
+
+        let outstanding = self.window_size - self.level;
+        let unacknowledged = (Wrapping(self.last_sent_seq_num) - Wrapping(ack_seq_num)).0;
+
+        if unacknowledged >= outstanding {
+            warn!(
+                "RX data integrity failure: ACK for a sequence number which is not awaiting an ACK; last sent={}, awaiting ACK={}, ACK={}",
+                self.last_sent_seq_num,
+                outstanding,
+                ack_seq_num
+            );
+            return Err(ErrorCode::InvalidData.into());
+        }
+
+        Ok(())
+    }
+
     /// Update the sending window level when a new BTP segment had arrived,
     /// based on the ACK seq num in the incoming packet (if any).
+    ///
+    /// The ACK seq num must have been validated with `check_incoming` first.
     fn accept_incoming(&mut self, hdr: &BtpHdr) {
         let Some(ack_seq_num) = hdr.get_ack() else {
             return;
@@ -206,47 +234,75 @@ impl RecvWindow {
     }
 
     /// Process an incoming BTP segment, updating the state of the window accordingly.
+    ///
+    /// All checks are done before the window is touched, so a refused segment leaves no traces.
     fn accept_incoming(&mut self, hdr: &BtpHdr, payload: &[u8], mtu: u16) -> Result<(), Error> {
         // Check received packet integrity, as per the Matter Core spec
         self.check_data_integrity(hdr, payload, mtu)?;
 
+        if self.level == 0 {
+            warn!("RX data integrity failure: the other party is overflowing our recv window");
+            Err(ErrorCode::InvalidData)?;
+        }
+
+        let mut rem_msg_len = self.rem_msg_len;
+        let mut sdu_len_prefix: Option<u16> = None;
+
         if let Some(msg_len) = hdr.get_msg_len() {
+            if rem_msg_len > 0 {
+                warn!("RX data integrity failure: BEGINNING_SEGMENT while the previous SDU is not complete");
+                Err(ErrorCode::InvalidData)?;
+            }
+
             if msg_len <= mtu && !hdr.is_final() {
                 warn!("RX data integrity failure: An SDU that fits in a single BTP segment must be final");
                 Err(ErrorCode::InvalidData)?;
             }
 
-            self.rem_msg_len = msg_len;
+            rem_msg_len = msg_len;
 
             if msg_len > 0 {
-                if self.buf.free() >= core::mem::size_of::<u16>() {
-                    // New SDU; skip 0-length ones as they do not contain Matter messages
-                    self.buf.push(&u16::to_le_bytes(msg_len));
-                } else {
-                    warn!("RX data integrity failure: got more data when the ring-buffer is full. Is the other party overflowing our recv window?");
-                    Err(ErrorCode::InvalidData)?;
-                }
+                // New SDU; skip 0-length ones as they do not contain Matter messages
+                sdu_len_prefix = Some(msg_len);
             }
         }
 
-        if self.rem_msg_len < payload.len() as u16 {
+        if (rem_msg_len as usize) < payload.len() {
             warn!("RX data integrity failure: Packet contains more data than the message length");
             Err(ErrorCode::InvalidData)?;
         }
 
-        self.rem_msg_len -= payload.len() as u16;
-        if hdr.is_final() && self.rem_msg_len > 0 {
+        rem_msg_len -= payload.len() as u16;
+        if !hdr.is_final() && !payload.is_empty() && rem_msg_len == 0 {
+            warn!(
+                "RX data integrity failure: Packet reaches the message length but is not final"
+            );
+            Err(ErrorCode::InvalidData)?;
+        }
+
+        if hdr.is_final() && rem_msg_len > 0 {
             warn!(
                 "RX data integrity failure: Packet is final but the message length is not reached"
             );
             Err(ErrorCode::InvalidData)?;
         }
 
-        if self.buf.free() < payload.len() {
+        let prefix_len = if sdu_len_prefix.is_some() {
+            core::mem::size_of::<u16>()
+        } else {
+            0
+        };
+
+        if self.buf.free() < prefix_len + payload.len() {
             warn!("RX data integrity failure: got more data when the ring-buffer is full. Is the other party overflowing our recv window?");
             Err(ErrorCode::InvalidData)?;
         }
 
+        if let Some(msg_len) = sdu_len_prefix {
+            self.buf.push(&u16::to_le_bytes(msg_len));
+        }
+
+        self.rem_msg_len = rem_msg_len;
         self.buf.push(payload);
         self.level -= 1;
         // Unwrap is safe because we are only processing BTP data segments here and they always have a sequence number
@@ -676,6 +732,7 @@ impl Session {
             payload.len()
         );
 
+        self.send_window.check_incoming(&hdr)?;
         self.recv_window.accept_incoming(&hdr, payload, self.mtu)?;
         self.send_window.accept_incoming(&hdr);
 
